@@ -284,6 +284,8 @@ def spell_source(source, workdir):
         return os.path.join(".", rel)
     if how == "slash":
         return source + "/" if os.path.isdir(source) else source
+    if how == "uri":
+        return pathlib.Path(source).as_uri()
     if how == "dotdot":
         return os.path.join(os.path.dirname(source), "..", os.path.basename(os.path.dirname(source)), os.path.basename(source))
     return source
